@@ -11,6 +11,7 @@ import (
 	"os"
 	"reflect"
 	"strings"
+	"sync"
 	"time"
 
 	"github.com/pebbe/zmq4"
@@ -178,6 +179,11 @@ var nosaveMessages = map[string]struct{}{
 	"externaltrigger": {},
 }
 
+// configLock serialises use of the viper configuration store, which is global and not safe for
+// concurrent use: the client updater saves the latest state into it (saveState) while the
+// goroutine serving RPC requests reads saved settings from it whenever a source is started.
+var configLock sync.Mutex
+
 // saveState stores server configuration to the standard config file.
 func saveState(lastMessages map[string]interface{}) {
 
@@ -186,6 +192,7 @@ func saveState(lastMessages map[string]interface{}) {
 	now := time.Now().Format(time.UnixDate)
 	lastMessages["CURRENTTIME"] = now
 	// Note that the nosaveMessages shouldn't get into the lastMessages map.
+	configLock.Lock()
 	for k, v := range lastMessages {
 		if _, ok := nosaveMessages[strings.ToLower(k)]; !ok {
 			viper.Set(k, v)
@@ -196,6 +203,7 @@ func saveState(lastMessages map[string]interface{}) {
 	tmpname := strings.Replace(mainname, ".yaml", ".tmp.yaml", 1)
 	bakname := mainname + ".bak"
 	err := viper.WriteConfigAs(tmpname)
+	configLock.Unlock()
 	if err != nil {
 		log.Println("Could not store config file ", tmpname, ": ", err)
 		return
